@@ -7,6 +7,8 @@ PROP = "C12"
 TRUSTED = [
     "Model/Queries.lean mirrors rrulebase.__getitem__/__contains__/count/before/after/xafter/between (rrule.py 151-306) "
     "loop by loop; tied by the query.gen / query.fast / query.run correspondence ops on real rrule and rruleset objects",
+    "the query methods are TRANSLATED from the source on every run (harness/translate_rrbase.py -> Generated/RRBaseQueries.lean, meaning Model/ScanPy.lean); "
+    "gen_*_eq_model prove them equal to Model/Queries.lean on both paths; query.tgen / query.tfast run the translated methods against the implementation",
     "itertools.islice is standard library: modelled from its documentation (Queries.islice), validated by the same ops",
     "Python list indexing/slicing is modelled by Py.getIdx / Py.slice (Base/Py.lean), validated against CPython lists by the query.spec op",
     "the underlying recurrence is abstracted to an arbitrary strictly increasing finite list (rrule itself is C01's model)",
@@ -161,6 +163,9 @@ def correspondence(ctx):
                 out, _ = run_mode(fac, mode, q)
                 op = "query.fast" if mode == "complete" else "query.gen"
                 reqs.append("%s %s %s" % (op, ilist(L), q_wire(q))); exp.append(out); meta.append((label, mode))
+                # the same through the method TRANSLATED from the source (Generated/RRBaseQueries.lean): validation of the translation
+                top = "query.tfast" if mode == "complete" else "query.tgen"
+                reqs.append("%s %s %s" % (top, ilist(L), q_wire(q))); exp.append(out); meta.append((label, mode + "/translated"))
                 if out != ref:        # Python-side reference: judged by the oracle whatever the model says
                     ctx._c12_bad = getattr(ctx, "_c12_bad", [])
                     ctx._c12_bad.append((label, L, q, mode, out, ref))
